@@ -26,6 +26,12 @@ def run(s):
     for k_, txt_ in enumerate(K.idless_states()):
         if s.mine(k_):
             acc.sweep(s, s.load(txt_), txt_, {'workload': 'id-less elements'})
+    if s.mine(3):
+        # a very long running order (recursive or quadratic accessor implementations show here)
+        big_ = B.ro_doc('RO', 1, [gen.simple_story('L%04d' % k, 1, dur=(k % 7) + 0.5) for k in range(1100)],
+                        ed_start='2020-01-01T12:30:00')
+        acc.sweep(s, s.load(big_), big_, {'workload': '1100 stories'})
+        s.hist['very_long_running_orders'] += 1
 
     def on_pair_state(ro, cur, ev):
         acc.sweep(s, ro, cur, {'workload': 'pair-history'}, after=(ev or {}).get('msg_cls'))
